@@ -15,7 +15,7 @@ def Canon (t : List Cell) : Prop :=
   t.Pairwise (fun a b => Cell.le a b) ∧ kindsConsistent t = true
 
 theorem Canon.sublist {t s : List Cell} (ht : Canon t) (hs : s.Sublist t) : Canon s :=
-  ⟨ht.1.sublist hs, kindsConsistent_sublist hs ht.2⟩
+  ⟨ht.1.sublist hs, kindsConsistent_sublist_sel hs ht.2⟩
 
 /-! ### 1. clip -/
 
@@ -172,7 +172,7 @@ theorem split_partition {t : List Cell} (ht : Canon t) (keys : List String) :
     ∃ gs, Triangle.split t keys = .ok gs ∧ (gs.map (·.1)).Nodup ∧
       (∀ p ∈ gs, p.2 = t.filter (fun c => splitKey keys c == p.1) ∧ p.2 ≠ []) ∧
       (gs.flatMap (·.2)).Perm t := by
-  have inv := groupBy_inv (splitKey keys) t
+  have inv := groupBy_inv_sel (splitKey keys) t
   refine ⟨groupBy (splitKey keys) t, ?_, inv.nodup, inv.grp, ?_⟩
   · unfold Triangle.split
     rw [mapM_ok_of_forall _ id]
@@ -434,7 +434,7 @@ theorem mem_rows {t : List Cell} (ht : Canon t) {c : Cell} (hc : c ∈ rightEdge
   rw [rows_eq t ht] at hc
   obtain ⟨m, hm, hc⟩ := List.mem_flatMap.mp hc
   obtain ⟨q, hq, hl⟩ := List.mem_filterMap.mp hc
-  exact ⟨m, hm, q, hq, hl, ((groupBy_inv _ _).grp q hq).1⟩
+  exact ⟨m, hm, q, hq, hl, ((groupBy_inv_sel _ _).grp q hq).1⟩
 
 /-- **right_edge holds, for each slice and period, exactly the cell with the latest evaluation
 date**: every kept cell is a cell of the triangle whose evaluation date is maximal in its
@@ -473,7 +473,7 @@ theorem rightEdge_spec {t r : List Cell} (ht : Canon t) (h : Triangle.rightEdge 
     simpa [leOf, evCmp, cmpOn] using this
   · intro c hc
     have hcs : c ∈ t.filter (fun x => x.md == c.md) := List.mem_filter.mpr ⟨hc, by simp⟩
-    have inv := groupBy_inv (fun c : Cell => (c.ps, c.pe)) (t.filter (fun x => x.md == c.md))
+    have inv := groupBy_inv_sel (fun c : Cell => (c.ps, c.pe)) (t.filter (fun x => x.md == c.md))
     obtain ⟨q, hq, hqk⟩ := List.mem_map.mp (inv.cov c hcs)
     obtain ⟨hq2, hne⟩ := inv.grp q hq
     obtain ⟨c', hl, hc'q, _⟩ := lastBy?_spec (cmp := evCmp) hne
@@ -499,7 +499,7 @@ theorem rightEdge_spec {t r : List Cell} (ht : Canon t) (h : Triangle.rightEdge 
     rw [List.Perm.pairwise_iff hsymm hperm, rows_eq t ht, List.pairwise_flatMap]
     constructor
     · intro m hm
-      have inv := groupBy_inv (fun c : Cell => (c.ps, c.pe)) (t.filter (fun x => x.md == m))
+      have inv := groupBy_inv_sel (fun c : Cell => (c.ps, c.pe)) (t.filter (fun x => x.md == m))
       rw [List.pairwise_filterMap]
       have hk : (groupBy (fun c : Cell => (c.ps, c.pe)) (t.filter (fun x => x.md == m))).Pairwise
           (fun q q' => q.1 ≠ q'.1) := List.pairwise_map.mp inv.nodup
@@ -522,8 +522,8 @@ theorem rightEdge_spec {t r : List Cell} (ht : Canon t) (h : Triangle.rightEdge 
       obtain ⟨q', hq', hl'⟩ := List.mem_filterMap.mp hy
       have hxq := mem_of_lastBy? hl
       have hyq := mem_of_lastBy? hl'
-      rw [((groupBy_inv _ _).grp q hq).1] at hxq
-      rw [((groupBy_inv _ _).grp q' hq').1] at hyq
+      rw [((groupBy_inv_sel _ _).grp q hq).1] at hxq
+      rw [((groupBy_inv_sel _ _).grp q' hq').1] at hyq
       have e1 : x.md = m := by simpa using (List.mem_filter.mp (List.mem_filter.mp hxq).1).2
       have e2 : y.md = m' := by simpa using (List.mem_filter.mp (List.mem_filter.mp hyq).1).2
       cases hs : sameRow x y with
